@@ -175,6 +175,8 @@ class Session(object):
 
     # ---------------------------------------------------------------- running
     def emit(self, ev):
+        if getattr(self, "burst", 0) and ev["k"] in ("connect", "cmd", "disconnect") and self.rng.random() < self.burst:
+            ev = dict(ev, same_turn=True)       # the next event arrives within the same reactor turn
         o = self.w.do_event(ev)
         base = ev["e"] if ev["k"] == "crash" else ev
         ev = dict(ev)
@@ -456,6 +458,10 @@ class Session(object):
             ev = self.gen_cmd_event()
         if r.random() < p.p_crash and ev["k"] != "disconnect":
             ev = {"k": "crash", "n": r.randrange(0, 6), "e": ev}
+            if r.random() < 0.4:
+                # die between two SQL statements that follow that commit, not right at it (world.on_statement):
+                # the same crash state, as long as the statements between two commits are one transaction
+                ev["after_stmt"] = r.randrange(1, 5)
         o = self.emit(ev)
         base = ev["e"] if ev["k"] == "crash" else ev
         if base["k"] == "cmd" and ev["k"] != "crash":
